@@ -565,10 +565,6 @@ FEATURES = [
     ("C12-negative-zero",
      lambda t1, t2, sp, c: any(neg_zero(a) for a in all_atoms2(t1, t2)),
      both(lambda a: 0.0 if neg_zero(a) else a)),
-    ("C12-K8-numeric-key-ValueError",
-     lambda t1, t2, sp, c: ((sp["case"] or sp["strty"]) and not sp["numty"] and sp["sig"] is None
-                            and any(numk(k) for k in all_keys2(t1, t2))),
-     both_keys(numk, strkey)),
     ("C12-sigdigits-dict-keys",
      lambda t1, t2, sp, c: sp["sig"] is not None and not cleaning(sp) and any(is_num(k) for k in all_keys2(t1, t2)),
      both_keys(is_num, strkey)),
@@ -939,7 +935,7 @@ WITNESSES = [
     ("C12_bool_int_refuted(root)", True, 1, _s(numty=True), False, (False, "empty")),
     ("C12_tag_refuted", None, "NONE", _s(), False, (True, "nonempty")),
     ("C12_tag_case_refuted", None, "none", _s(case=True), False, (True, "nonempty")),
-    ("C12_numeric_key_raises_refuted", {1: 1}, {1: 1}, _s(case=True), False, (True, "EXC:ValueError")),
+    ("K8 fixed (d664dbb): numeric keys under ignore_string_case", {1: 1}, {1: 1}, _s(case=True), False, (True, "empty")),
     ("C12_bytes_key_case_refuted", {b"A": 1}, {b"a": 1}, _s(case=True), False, (True, "nonempty")),
     ("C12_sig_keys_refuted", {1.5: 1}, {2.5: 1}, _s(sig=0), False, (True, "nonempty")),
     ("C12_key_collision_refuted", {"A": 1, "a": 2}, {"A": 1, "a": 3}, _s(case=True), False, (False, "empty")),
